@@ -171,16 +171,16 @@ Theorem C18_antihermitian_rayleigh_imag :
 Proof. exact antihermitian_rayleigh_imag. Qed.
 Print Assumptions C18_antihermitian_rayleigh_imag.
 
-(* the Hermitian-operator precondition at every call site of expm_krylov in mps/mps.py and tn/time_evolution.py
-   (site_ok: the callable is lambda y: h(y.reshape(shape)).ravel() with h built by hop_expr*, or that divided by a
-   coefficient that is real on every path), EXCLUDING the coefficient site of _evolve_tdvp_mu_cmf, whose operator is
-   H_eff/coef with coef = 1j in real time, i.e. anti-Hermitian.  For that site the check compiles, on every run, the
-   generated lemma  krylov_sites_hermitian_refuted : exists s, In s sites /\ site_ok s = false  (while the table says
-   so) and reproduces the wrong result on the real code; see notes/C18.md, finding cmf-krylov-antihermitian. *)
-Theorem C18_krylov_sites_hermitian_excl_cmf :
-  forall s, In s sites -> is_cmf s = false -> site_ok s = true.
-Proof. exact sites_hermitian_excl_cmf. Qed.
-Print Assumptions C18_krylov_sites_hermitian_excl_cmf.
+(* the Hermitian-operator precondition at EVERY call site of expm_krylov in mps/mps.py and tn/time_evolution.py
+   (table regenerated on every run).  site_ok: the callable is  lambda y: h(y.reshape(shape)).ravel()  with h built by
+   hop_expr*, or the factory function H_eff(.)/coef with coef real on every path, or  lambda y: f(y) * coef  where f is the
+   factory function dividing by the very same name coef (a non-zero literal on every path) and dt is  name / coef.
+   History: the coefficient site of _evolve_tdvp_mu_cmf used to pass H_eff/1j (anti-Hermitian) -- finding
+   cmf-krylov-antihermitian, repaired in /repo commit f5f749f; this theorem fails to compile if that shape returns. *)
+Theorem C18_krylov_sites_hermitian :
+  forall s, In s sites -> site_ok s = true.
+Proof. exact sites_hermitian. Qed.
+Print Assumptions C18_krylov_sites_hermitian.
 
 (* ------------------------------------------------------------------ non-vacuity *)
 (* a 4 x 4 integer matrix with two sectors, forbidden entries, exact integer block factors *)
@@ -206,5 +206,5 @@ Proof. exact Ex.econ_shape. Qed.
 Example C18_ex_krylov_run :
   run_summary 30 4 (fun _ => false) (fun j => Nat.eqb j 8) = [1; 2; 9; 12; 12; 11; 1; 4; 6; 8].
 Proof. vm_compute. reflexivity. Qed.
-Example C18_ex_sites : existsb (fun s => negb (is_cmf s)) sites = true.
-Proof. vm_compute. reflexivity. Qed.
+Example C18_ex_sites : 1 <= length sites.
+Proof. vm_compute. lia. Qed.
